@@ -4,12 +4,15 @@ package handler
 
 // C02 (call sites): drives the real SheddingHandler with a recording shedder.
 //   ops:  req allow=<0/1> code=<status the next handler writes, 0 = writes nothing> panic=<0/1>
+//             [body=<0/1> the handler writes a body] [again=<second WriteHeader code, 0 = none>] [nilshed=<0/1> SheddingHandler(nil, …)]
 //   obs:  status=<n> ran=<0/1> early=<promise resolutions seen while the next handler ran> pass=<n> fail=<n>
+//         allows=<n> st=<total>/<pass>/<drop>  (deltas of the package's SheddingStat; "reset" if its reporter zeroed it meanwhile)
 
 import (
 	"fmt"
 	"net/http"
 	"net/http/httptest"
+	"reflect"
 	"strings"
 	"testing"
 
@@ -20,8 +23,8 @@ import (
 )
 
 type c02Shedder struct {
-	allow      bool
-	pass, fail int
+	allow              bool
+	allows, pass, fail int
 }
 
 type c02Promise struct{ s *c02Shedder }
@@ -30,6 +33,7 @@ func (p c02Promise) Pass() { p.s.pass++ }
 func (p c02Promise) Fail() { p.s.fail++ }
 
 func (s *c02Shedder) Allow() (load.Promise, error) {
+	s.allows++
 	if !s.allow {
 		return nil, load.ErrServiceOverloaded
 	}
@@ -38,7 +42,7 @@ func (s *c02Shedder) Allow() (load.Promise, error) {
 
 func c02hGen(r *verifh.Rng) []verifh.Section {
 	var secs []verifh.Section
-	for i := 0; i < verifh.Scale(6, 40); i++ {
+	for i := 0; i < verifh.Scale(12, 60); i++ {
 		var ops []string
 		for j := 0; j < r.Range(4, 20); j++ {
 			allow := 1
@@ -49,11 +53,31 @@ func c02hGen(r *verifh.Rng) []verifh.Section {
 			if r.Chance(1, 5) {
 				pn = 1
 			}
-			ops = append(ops, fmt.Sprintf("req allow=%d code=%d panic=%d", allow, r.Pick(0, 200, 201, 404, 500, 503, 503), pn))
+			op := fmt.Sprintf("req allow=%d code=%d panic=%d", allow, r.Pick(0, 200, 201, 404, 500, 502, 503, 503, 504), pn)
+			switch r.Intn(8) {
+			case 0:
+				op += " body=1"
+			case 1:
+				// net/http keeps the first status on the wire, the shedding wrapper remembers the last one
+				op += fmt.Sprintf(" again=%d", r.Pick(200, 500, 503))
+			case 2:
+				op += " nilshed=1"
+			}
+			ops = append(ops, op)
 		}
 		secs = append(secs, verifh.Section{Cfg: "handler=rest", Ops: ops})
 	}
 	return secs
+}
+
+func c02Stat() [3]int64 {
+	lock.Lock()
+	defer lock.Unlock()
+	if sheddingStat == nil {
+		return [3]int64{}
+	}
+	v := reflect.ValueOf(sheddingStat).Elem()
+	return [3]int64{v.FieldByName("total").Int(), v.FieldByName("pass").Int(), v.FieldByName("drop").Int()}
 }
 
 func TestVerifC02H(t *testing.T) {
@@ -74,6 +98,10 @@ func TestVerifC02H(t *testing.T) {
 			}
 			sh := &c02Shedder{allow: kv["allow"] == "1"}
 			code := verifh.Atoi(kv["code"])
+			again := 0
+			if kv["again"] != "" {
+				again = verifh.Atoi(kv["again"])
+			}
 			ran, early := 0, 0
 			next := http.HandlerFunc(func(w http.ResponseWriter, r *http.Request) {
 				ran = 1
@@ -81,18 +109,35 @@ func TestVerifC02H(t *testing.T) {
 				if code != 0 {
 					w.WriteHeader(code)
 				}
+				if kv["body"] == "1" {
+					w.Write([]byte("x"))
+				}
+				if again != 0 {
+					w.WriteHeader(again)
+				}
 				early += sh.pass + sh.fail
 				if kv["panic"] == "1" {
 					panic("verif")
 				}
 			})
-			h := SheddingHandler(sh, metrics)(next)
+			var h http.Handler
+			if kv["nilshed"] == "1" {
+				h = SheddingHandler(nil, metrics)(next)
+			} else {
+				h = SheddingHandler(sh, metrics)(next)
+			}
+			before := c02Stat()
 			rec := httptest.NewRecorder()
 			func() {
 				defer func() { recover() }()
 				h.ServeHTTP(rec, httptest.NewRequest(http.MethodGet, "http://localhost/x", http.NoBody))
 			}()
-			return fmt.Sprintf("status=%d ran=%d early=%d pass=%d fail=%d", rec.Code, ran, early, sh.pass, sh.fail)
+			after := c02Stat()
+			st := fmt.Sprintf("%d/%d/%d", after[0]-before[0], after[1]-before[1], after[2]-before[2])
+			if after[0] < before[0] || after[1] < before[1] || after[2] < before[2] {
+				st = "reset"
+			}
+			return fmt.Sprintf("status=%d ran=%d early=%d pass=%d fail=%d allows=%d st=%s", rec.Code, ran, early, sh.pass, sh.fail, sh.allows, st)
 		}
 		return step, nil
 	})
